@@ -128,4 +128,18 @@ CHECKS["C51"] = dict(level="exploration", technique="integer decision rules of t
          "writes the data and .check files, runs the real tfel-check and parses one verdict per comparison; TLC judges soundness "
          "(success only if all pairs finite and within tolerance) and success of self-comparison.",
     note="Area comparison and MTest's @Test are not covered. A '-inf' token in a multi-column data file is split by tfel-check's reader and shifts later columns: observed, outside the statement (single-column files are used).", ref="8/C51")
+CHECKS["C39"] = dict(level="model_checking", technique="decode table of K[0] and return convention in TLA+ judged by TLC on calls of a generated probe behaviour + TLC model checking of the entry-point stages",
+    text="A probe behaviour with distinguishable operators (1,2,3 x Id predictions; 10..40 x Id tangents) and a run-time selectable failure "
+         "stage is generated by the current mfront (small strain, GreenLagrange and Hencky variants) and called through the real generic "
+         "entry points for every documented K[0] (+-0.2, with/without the +100 flag) x policy x failure stage x time-step factor x "
+         "bounded-variable state x hypothesis; TLC computes the expected return value, operator, speed of sound and results from the "
+         "documented convention and judges every call. The stages model (GenericBehaviour.tla) is model-checked.",
+    note="K[0] values further than 0.2 from a documented one are not generated. Outputs are observed through sentinel-prefilled buffers.", ref="8/C39")
+CHECKS["C40"] = dict(level="model_checking", technique="TLC model checking of the entry-point / wrapper stages (GenericBehaviour.tla) + failure injection at every stage of a generated probe behaviour judged by TLC",
+    text="The entry point and the strain-measure wrappers are a pipeline model (one action per stage, each may succeed, fail or throw) "
+         "model-checked for 'return -1 implies forces, state variables and energies untouched' (the pinned export order and wrapper test "
+         "are rejected by TLC); failures are injected at every stage of the generated probe behaviour (initialisation, bounds, a-priori / "
+         "a-posteriori factors, integrator FAILURE / throw, energies, speed of sound), for 3 strain measures, and sentinel-prefilled "
+         "output buffers are compared bitwise.",
+    note="Same generated probe and harness as C39; only the C40 obligations are reported here.", ref="8/C40")
 NOT_APPLICABLE = {}
